@@ -57,7 +57,7 @@ def gen_c16(seed, policy=None):
     nag = rng.randint(1, 2)
     grp = rng.choice([[], [], [1]])
     sims = [{"sid": "Sa", "type": rng.choice(["time-based", "hybrid"]), "gpath": list(grp), "nent": rng.choice([1, 1, 2])}]
-    conns, agents = [], {}
+    conns, agents, shifted = [], {}, []
     for j in range(nag):
         b = ["Sb", "Sc"][j]
         sims.append({"sid": b, "type": rng.choice(["time-based", "hybrid"]), "gpath": list(rng.choice([[], grp]))})
@@ -65,6 +65,7 @@ def gen_c16(seed, policy=None):
         if rng.random() < 0.7:
             c.update({"sa": "p", "da": "i"})
         conns.append(c)
+        shifted.append(c)
         agents[b] = {"target": "Sa", "attr": rng.choice(["i", "i2"]), "p": rng.choice([0.5, 0.8, 1.0]), "eid": f"E{rng.randrange(sims[0]['nent'])}"}
         if sims[0]["nent"] == 2:
             agents[b]["also"] = [e for e in ("E0", "E1") if e != agents[b]["eid"]]
@@ -99,6 +100,13 @@ def gen_c16(seed, policy=None):
             if illegal[-1]["f"] == "set_data" and rng.random() < 0.6:
                 illegal[-1]["mixed"] = rng.choice(["legal_first", "legal_first", "illegal_first"])
     ratios = rng.choice([(1, 1), (1, 2), (2, 1), (1, 3), (3, 1)])
+    if random.Random(f"c16shift|{seed}").random() < 0.3:
+        # (its own random source: the scenarios of a seed stay what they were) the data connection that carries the asynchronous requests is TIME-SHIFTED as well - one call
+        # connect(a, b, ('p', 'i'), time_shifted=True, initial_data={...}, async_requests=True): the agent must still wait for the
+        # served simulator's step at the same time (the asynchronous link has no delay)
+        for c in shifted:
+            if c.get("sa"):
+                c.update({"shift": 1, "init": True})
     scn = S.normalize({"sims": sims, "conns": conns, "until": rng.randint(3, 5), "lazy": rng.random() < 0.5, "cache": rng.random() < 0.5})
     beh = {"kind": "agent", "agents": agents, "illegal": illegal,
            "tb_next": [ratios[0]] if rng.random() < 0.7 else [1, 2], "ev_next": [None, ratios[1], ratios[1]]}
